@@ -652,7 +652,7 @@ AtomicStep(st, e, l) ==
 WgLoadStep(st, e, l) ==
   LET pt == Pointee(st, e.p)
       vs == UseViol(st, e)
-         \o Chk(~ExIn(st, e.p) \/ (pt.ok /\ pt.space = "workgroup"), "workgroupUniformLoad: pointer is not a workgroup pointer", e.p)
+         \o Chk(~ExIn(st, e.p) \/ ~Kn(st, e.p) \/ (pt.ok /\ pt.space = "workgroup"), "workgroupUniformLoad: pointer is not a workgroup pointer", e.p)
          \o ResultViol(st, e.res, "WorkGroupUniformLoadResult")
          \o Chk(~pt.ok \/ ~ExIn(st, e.res) \/ TypeEq(st, ExTy(st, e.res), pt.res),
                 "workgroupUniformLoad: recorded result type differs from the pointee type", e.res)
